@@ -259,7 +259,21 @@ def split_shards(cases, n):
 
 
 def run_sharded(cases, tag, profile="debug", want_model=True):
-    """returns (impl: id -> (outcome, obs), model: id -> (outcome, obs))"""
+    """returns (impl: id -> (outcome, obs), model: id -> (outcome, obs)); C-kind cases go through the CLI"""
+    ccases = [c for c in cases if c.split("\t")[1] == "C"]
+    if ccases:
+        rest = [c for c in cases if c.split("\t")[1] != "C"]
+        impl, model, errs = run_sharded_(rest, tag, profile, want_model) if rest else ({}, {}, [])
+        impl.update(run_cli_cases(ccases, tag, profile))
+        if want_model:
+            _, m2, e2 = run_sharded_(ccases, tag + "c", profile, True, want_impl=False)
+            model.update(m2)
+            errs += e2
+        return impl, model, errs
+    return run_sharded_(cases, tag, profile, want_model)
+
+
+def run_sharded_(cases, tag, profile="debug", want_model=True, want_impl=True):
     shards = split_shards(cases, NPROC)
     d = os.path.join(TMP, "%s-%d" % (tag, os.getpid()))
     os.makedirs(d, exist_ok=True)
@@ -270,7 +284,8 @@ def run_sharded(cases, tag, profile="debug", want_model=True):
         cf = os.path.join(d, "c%d.txt" % i)
         with open(cf, "w") as f:
             f.write("\n".join(s) + "\n")
-        jobs.append(("impl", [sqv, cf, os.path.join(d, "i%d.txt" % i), d], os.path.join(d, "i%d.txt" % i)))
+        if want_impl:
+            jobs.append(("impl", [sqv, cf, os.path.join(d, "i%d.txt" % i), d], os.path.join(d, "i%d.txt" % i)))
         if want_model:
             jobs.append(("model", [sqm, cf, os.path.join(d, "m%d.txt" % i)], os.path.join(d, "m%d.txt" % i)))
 
@@ -289,6 +304,87 @@ def run_sharded(cases, tag, profile="debug", want_model=True):
                 (impl if kind == "impl" else model).update(sqcmp.read_obs(outp))
     shutil.rmtree(d, ignore_errors=True)
     return impl, model, errs
+
+
+CLEAR = b"\x1b[2J\x1b[H\x1b[3J"
+
+
+def cli_args(opts_s, path):
+    a = ["-s", path, "--update=-1"]
+    have_o = False
+    for kv in opts_s.split(","):
+        if "=" not in kv:
+            continue
+        k, v = kv.split("=", 1)
+        if k == "U" and v == "1":
+            a.append("-U")
+        elif k == "R" and v == "1":
+            a.append("-R")
+        elif k == "c" and v == "1":
+            a.append("-c")
+        elif k == "f":
+            for x in v.split("+"):
+                a += ["-f", x]
+        elif k == "d":
+            a.append("--delete-after=" + v)
+        elif k == "i":
+            for x in v.split("+"):
+                a += ["-i", x]
+        elif k == "o":
+            for x in v.split("+"):
+                a += ["-o", x]
+        elif k == "O":
+            a += ["-O", bytes.fromhex(v).decode("utf-8", "replace")]
+            have_o = True
+    if not have_o:
+        a += ["-O", "x"]
+    return a
+
+
+def run_cli_cases(cases, tag, profile="debug", timeout=60):
+    """C-kind cases through the built CLI.  returns id -> (outcome, obs) with obs = frames joined by \x1e,
+    lines by \x1d (same layout the model prints)"""
+    import pyspec
+    exe = os.path.join(TARGET, profile, "squitterator")
+    d = os.path.join(TMP, "%s-cli-%d" % (tag, os.getpid()))
+    os.makedirs(d, exist_ok=True)
+
+    def work(c):
+        parts = c.split("\t")
+        cid = parts[0]
+        segs = pyspec.case_segments(parts)
+        content = b"".join(l + b"\n" for l in segs[0][1]) if not parts[3].split(":", 1)[1].startswith("!") \
+            else bytes.fromhex(parts[3].split(":", 1)[1][1:])
+        path = os.path.join(d, "in-%s.txt" % cid.replace("/", "_"))
+        with open(path, "wb") as f:
+            f.write(content)
+        try:
+            p = subprocess.run([exe] + cli_args(parts[2], path), stdout=subprocess.PIPE, stderr=subprocess.PIPE, timeout=timeout)
+        except subprocess.TimeoutExpired:
+            return cid, ("timeout", "")
+        finally:
+            pass
+        os.remove(path)
+        err = p.stderr.decode("utf-8", "replace")
+        if p.returncode != 0 or "panicked" in err:
+            return cid, ("panic" if (p.returncode in (101, -6, 134) or "panicked" in err) else "exit%d" % p.returncode, err[-300:])
+        frames = p.stdout.split(CLEAR)[1:]   # [0] is what precedes the first clear
+        frames = frames[1:] if frames else []   # drop the legend
+        out = []
+        for fr in frames:
+            txt = fr.decode("utf-8", "replace")
+            lines = txt.split("\n")
+            if lines and lines[-1] == "":
+                lines = lines[:-1]
+            out.append("\x1d".join(lines))
+        return cid, ("ok", "\x1e".join(out))
+
+    res = {}
+    with ThreadPoolExecutor(max_workers=NPROC) as ex:
+        for cid, r in ex.map(work, cases):
+            res[cid] = r
+    shutil.rmtree(d, ignore_errors=True)
+    return res
 
 
 def case_index(cases):
